@@ -613,3 +613,29 @@ Proof. vm_compute. split; reflexivity. Qed.
 Example ex_overruns : overruns (fun _ => {| h_res := HDone [] [] []; h_dur := 250 |}) ex_cfg ex_req 0 = true /\
                       overruns ex_dispatch ex_cfg ex_req 0 = false /\ dispatched ex_req 0 = true /\ oneway ex_req = false.
 Proof. vm_compute. repeat split. Qed.
+Definition ex_ping : request :=
+  {| q_ver := c_JSONVERSION; q_ptype := c_TARSNORMAL; q_mtype := 0; q_id := 9; q_servant := []; q_func := ping_name;
+     q_buf := []; q_timeout := 3000; q_ctx := []; q_status := [] |}.
+Example ex_ping_hyps : is_ping ex_ping = true /\ queue_expired ex_ping 2999 = false /\ queue_expired ex_ping 3000 = true /\
+                       is_ping ex_req = false.
+Proof. vm_compute. repeat split. Qed.
+Example ex_queue_hyps : (0 < q_timeout ex_req)%Z /\ (q_timeout ex_req <= Z.of_N 100)%Z.
+Proof. vm_compute. split; [reflexivity|discriminate]. Qed.
+(* two handlers' replies reaching the socket in the other order *)
+Example ex_interleave : interleave [[1; 2]; [3]] [3; 1; 2].
+Proof.
+  apply (il_cons [[1; 2]] 3 [] []). apply (il_cons [] 1 [2] [[]]). apply (il_cons [] 2 [] [[]]).
+  apply il_nil. repeat constructor.
+Qed.
+Example ex_started_before_write : started_before_write [LStart; LFire; LWake; LWrite; LReturn] /\
+                                  ~ started_before_write [LFire; LWake; LWrite].
+Proof.
+  split.
+  - intros pre post H. destruct pre as [|a pre]; [discriminate|]. inversion H; subst. left. reflexivity.
+  - intros H. destruct (H [LFire; LWake] [] eq_refl) as [X|[X|[]]]; discriminate.
+Qed.
+(* the two schedules of a real race end differently, both within the theorem *)
+Example ex_race :
+  option_map s_written (hrun_labels ex_req (base_reply ex_req) hinit [LStart; LFire; LReturn; LWake; LWrite]) = Some (Some [base_reply ex_req]) /\
+  option_map s_written (hrun_labels ex_req (base_reply ex_req) hinit [LStart; LFire; LWake; LReturn; LWrite]) = Some (Some [handle_timeout_reply ex_req]).
+Proof. vm_compute. split; reflexivity. Qed.
